@@ -206,9 +206,12 @@ class TcpConnection(object):
             return
 
         sock = self.__socket
-        self.__processConnectionTimeout()
-        if self.__isGone(sock):
-            return
+        if not eventType & POLL_EVENT_TYPE.READ:
+            # (When there is something to read the peer is not silent: a link that was merely idle
+            # for longer than the time-out must not be closed by the first message that arrives.)
+            self.__processConnectionTimeout()
+            if self.__isGone(sock):
+                return
 
         if eventType & POLL_EVENT_TYPE.READ or eventType & POLL_EVENT_TYPE.WRITE:
             if self.__socket.getsockopt(socket.SOL_SOCKET, socket.SO_ERROR):
